@@ -152,4 +152,31 @@ example : (zipCircuits .right [[[⟨1, [0], [], []⟩]], [[⟨2, [1], [], []⟩]
 
 example : (zipCircuits .left [[[⟨1, [0], [], []⟩]], [[⟨2, [0], [], []⟩]]]).toOption = none := by decide
 
+/-- **`Circuit.zip` keeps every operation exactly once** -/
+theorem C05_zip_conserves (a : Align) (cs : List Circuit) (r : Circuit) (h : zipCircuits a cs = .ok r) :
+    (allOps r).Perm (cs.flatMap allOps) := by
+  unfold zipCircuits at h
+  generalize hn : (cs.map List.length).foldl max 0 = n at h
+  have hr := mapM_except_eq_map (fun k => mkMoment ((cs.map (padTo a n)).flatMap (fun c => c[k]?.getD [])))
+    (fun k => (cs.map (padTo a n)).flatMap (fun c => c[k]?.getD []))
+    (fun k m hk => by have := withOperations_eq [] m _ hk; simpa using this) (List.range n) r h
+  subst hr
+  have h1 : allOps ((List.range n).map (fun k => (cs.map (padTo a n)).flatMap (fun c => c[k]?.getD [])))
+      = (List.range n).flatMap (fun k => (cs.map (padTo a n)).flatMap (fun c => c[k]?.getD [])) := by
+    simp [allOps, List.flatMap_def]
+  rw [h1]
+  refine (flatMap_swap_perm (List.range n) (cs.map (padTo a n)) (fun k c => c[k]?.getD [])).trans ?_
+  rw [List.flatMap_map]
+  have hlen : ∀ c ∈ cs, c.length ≤ n := by
+    intro c hc
+    have := (foldl_max_ge_mem (cs.map List.length) 0).2 c.length (List.mem_map_of_mem hc)
+    omega
+  have h2 : ∀ c ∈ cs, (List.range n).flatMap (fun k => (padTo a n c)[k]?.getD []) = allOps c := by
+    intro c hc
+    have hl := padTo_length_eq a n c (hlen c hc)
+    have := range_flatMap_getD (padTo a n c)
+    rw [hl] at this
+    rw [this, padTo_flatten]; rfl
+  rw [flatMap_congr_mem cs _ allOps h2]
+
 end CirqVerif.C05
